@@ -130,6 +130,8 @@ pub fn record(out_path: &str, count: u64) {
                     rec(&mut sum, json!({"ev": "fail", "side": "input", "from": fmt, "to": "streaming", "reader": reader, "res": "err",
                                          "same_across_targets": same, "has_tf": has_tf, "reason_nonempty": true, "has_writer_msg": false,
                                          "pos_ok": position_ok(&reference, p),
+                                         // the parser's own message, not just the text of the I/O condition it ran into
+                                         "bare_io": reference == "failed to fill whole buffer" || reference == "unexpected end of file",
                                          "panic": m.iter().any(|x| x.starts_with("PANIC")), "msgs": m, "hex": hex(&b[..b.len().min(300)]), "at": p}),
                         format!("in/{fmt}/{:x}/{reader}", crate::obs::fnv(&b)));
                 }
@@ -224,6 +226,8 @@ pub fn record(out_path: &str, count: u64) {
                     rec(&mut sum, json!({"ev": "fail", "side": "write", "from": fmt, "to": to, "reader": reader, "res": res,
                                          "same_across_targets": true, "has_tf": msg.contains("translation failed"),
                                          "reason_nonempty": !reason(&msg).is_empty(), "has_writer_msg": msg.contains(WRITE_FAULT_MSG), "pos_ok": true,
+                                         // nothing but the writer's own text: the serializer's reason is gone
+                                         "only_io": msg.trim() == WRITE_FAULT_MSG,
                                          "panic": msg.starts_with("PANIC"), "msgs": [msg], "hex": hex(&s.bytes[..s.bytes.len().min(300)]), "at": k}),
                         format!("wr/{fmt}/{to}/{:x}/{reader}/{k}", crate::obs::fnv(&s.bytes)));
                 }
